@@ -32,6 +32,7 @@ def handle (line : String) : String :=
     else if op == "cssp" then csspOp toks
     else if op == "conn" then connOp toks
     else if op == "strict" then strictOp toks
+    else if op == "tlsgate" then tlsgateOp toks
     else if op == "gui" then guiOp toks
     else if op == "x224_conn" || op == "gcc_ccr" || op == "lic" || op == "mcs_conn" || op == "sec_conn" then connectOps toks
     else if op == "msg_wr" || op == "msg_rd" || op == "msg_rt" then c18 toks
